@@ -6,6 +6,7 @@ import (
 	"fmt"
 	"io"
 	"net"
+	"net/http"
 	"strings"
 	"time"
 
@@ -24,6 +25,7 @@ type c48Case struct {
 	ID     string `json:"id"`
 	Script string `json:"script"` // X-Vs value
 	Method string `json:"method"`
+	Frontend string `json:"frontend,omitempty"` // "" = HTTP/1.1, "h2" = HTTP/2 over TLS
 }
 
 var c48Alpha = map[int]string{
@@ -63,6 +65,35 @@ type c48Obs struct {
 	ProbeResp bool // a response to the probe request arrived (connection was kept alive)
 	Closed    bool // EOF/reset observed before any probe response
 	Timeout   bool
+}
+
+func c48RunH2(addr string, c *c48Case) *c48Obs {
+	o := &c48Obs{}
+	body := []byte(nil)
+	if c.Method == "POST" {
+		body = []byte("abc")
+	}
+	res, probeOK := e2e.H2WithProbe(addr, []e2e.HF{{Name: ":method", Value: c.Method}, {Name: ":scheme", Value: "https"}, {Name: ":authority", Value: "c48.test"}, {Name: ":path", Value: "/c48/" + c.ID},
+		{Name: "x-id", Value: c.ID}, {Name: "x-vs", Value: c.Script}}, body,
+		[]e2e.HF{{Name: ":method", Value: "GET"}, {Name: ":scheme", Value: "https"}, {Name: ":authority", Value: "c48.test"}, {Name: ":path", Value: "/c48/probe-" + c.ID}, {Name: "x-id", Value: "probe-" + c.ID}}, 30*time.Second)
+	o.ProbeResp = probeOK
+	if res.Status != "" {
+		st := 0
+		fmt.Sscan(res.Status, &st)
+		h := http.Header{}
+		for _, f := range res.Fields {
+			h.Add(f.Name, f.Value)
+		}
+		o.First = &e2e.Resp{Status: st, Header: h, Body: res.Body}
+		o.FirstRaw = []byte("h2 response :status " + res.Status)
+	}
+	o.FirstErr = res.Err
+	if strings.Contains(res.Err, "timeout") {
+		o.Timeout = true
+	} else if !probeOK {
+		o.Closed = true
+	}
+	return o
 }
 
 func c48Run(addr string, c *c48Case) *c48Obs {
@@ -129,7 +160,7 @@ func c48(r *vkit.Run) {
 	be := bs.New("b1", func(x *e2e.Exchange) e2e.Action {
 		return e2e.Action{Status: 200, Body: []byte("backend id=" + x.Req.Header.Get("X-Id"))}
 	})
-	srv, err := e2e.Start(&e2e.Options{Clusters: []e2e.Cluster{{
+	srv, err := e2e.Start(&e2e.Options{HTTPS: true, TLSRule: `{"Version":"1","DefaultNextProtos":["h2","http/1.1"],"Config":{}}`, Clusters: []e2e.Cluster{{
 		Name: "c48", Hosts: []string{"c48.test"}, MaxIdleConnsPerHost: 8,
 		SubClusters: []e2e.SubCluster{{Name: "sub1", Weight: 100, Backends: []e2e.Backend{{Name: "b1", Addr: be.Addr, Port: be.Port, Weight: 10}}}},
 	}}})
@@ -186,11 +217,27 @@ func c48(r *vkit.Run) {
 				}
 			}
 			add(strings.Join(parts, ";"), g.PickS([]string{"GET", "GET", "POST", "HEAD"}))
+			if i%3 == 0 {
+				cases[len(cases)-1].Frontend = "h2"
+			}
+		}
+		// every single-point vector of the request-phase points once more over HTTP/2
+		for _, p := range c48Points[:3] {
+			for _, v := range allVectors(c48Alpha[p], 2) {
+				add(fmt.Sprintf("%d=%s", p, v), "GET")
+				cases[len(cases)-1].Frontend = "h2"
+			}
 		}
 	}
 
 	obs := make([]*c48Obs, len(cases))
-	vkit.Parallel(len(cases), 32, func(i int) { obs[i] = c48Run(srv.HTTPAddr, cases[i]) })
+	vkit.Parallel(len(cases), 32, func(i int) {
+		if cases[i].Frontend == "h2" {
+			obs[i] = c48RunH2(srv.HTTPSAddr, cases[i])
+		} else {
+			obs[i] = c48Run(srv.HTTPAddr, cases[i])
+		}
+	})
 
 	arrived := map[string]int{}
 	for _, x := range bs.Exchanges() {
@@ -245,7 +292,8 @@ func c48(r *vkit.Run) {
 				effs = append(effs, eff{p, k, s[k]})
 			}
 		}
-		r.CaseS(c.Script+"|"+c.Method, nontrivial)
+		r.CaseS(c.Script+"|"+c.Method+"|"+c.Frontend, nontrivial)
+		r.Count("frontend_"+c.Frontend+"_cases", 1)
 		if o.Timeout && !o.ProbeResp {
 			r.Count("client_timeouts_skipped", 1)
 			continue
@@ -294,7 +342,11 @@ func c48(r *vkit.Run) {
 				r.Violation("response-or-redirect:backend-contacted:"+fpn, "Response/Redirect verdict before forwarding but the request reached a backend", w)
 			}
 			if anyF && first.v != 'C' {
-				if o.First == nil {
+				if o.First == nil && c.Frontend == "h2" {
+					// one call site: ProtocolHandler.ServeHTTP closes the connection (bfe_http2.CloseConn) from the
+					// handler goroutine before the stream's reply has been written
+					r.Violation("finish:connection-closed-before-reply:h2", "Finish verdict over HTTP/2: the connection was closed without any reply on the stream ("+o.FirstErr+")", w)
+				} else if o.First == nil {
 					r.Violation("finish:no-reply:"+lpn, "Finish verdict: connection ended without a complete reply ("+o.FirstErr+")", w)
 				}
 				if o.ProbeResp {
